@@ -64,6 +64,11 @@ def all_none(E, path, v, depth=0):
         return all(all_none(E, path, x, depth + 1) or not _may_hold(x) for x in v[1])
     if v[0] == 'agg' and v[1] == 'std::task::Poll':
         return all(not _may_hold(x) for _, x in v[3])
+    # a struct built on this path whose every field is a constant, an empty slot or a freshly made (empty) queue:
+    # e.g. the rest of `State { value: Some(v), ..State::new() }`
+    if v[0] == 'agg' and v[1] not in ('std::option::Option', 'std::result::Result') and v[3]:
+        return all((not _may_hold(x)) or all_none(E, path, x, depth + 1) or
+                   (x[0] == 'agg' and x[2] == 'new' and not x[3]) for _, x in v[3])
     return False
 
 
@@ -143,6 +148,15 @@ def run(C, R):
                                  {'function': e['fn'], 'dropped_type': e['ty']['str'], 'value': fmt_val(v)})
                         continue
                     role = None
+                    # a copy made on this path (the result of Clone::clone / Option::cloned) is not the accepted value:
+                    # dropping it loses nothing
+                    if v[0] == 'ret' and any(c['k'] == 'call' and c.get('ret') == v and c.get('name') in ('clone', 'cloned')
+                                             and 'Clone' in ((c.get('ci') or {}).get('trait') or '') + c.get('callee', '')
+                                             for c in path.events):
+                        if key not in seen:
+                            seen.add(key)
+                            R.ok('C08.R1', '%s|%s|a clone made on this path' % (e['fn'], e['ty']['str']))
+                        continue
                     if v[0] == 'ret':
                         role = 'ret-of-pop'
                     elif v[0] == 'init' and v[1][0] == ('P', 'self') and loc_endswith(v[1], 'value'):
@@ -254,6 +268,10 @@ def run(C, R):
                        'from %s' % c, '%s:%s' % (cf['file'], cf['line']) if cf else None)
         if cfg != 'none':
             R.floor('C08.R2 clear-callers[%s]' % cfg, len(callers), 1)
+            # "the last receiver" presupposes that every receiver handle is counted when it is made
+            from common import counted_handle_sites
+            R.floor('C08.R2 counted-handle construction paths[%s]' % cfg,
+                    counted_handle_sites(R, E, F, C.cg(cfg), 'C08.R2'), 8)
         # ... and there only on the path on which the LAST receiver goes away
         for c in callers:
             cf = F.fn(c)
